@@ -158,7 +158,7 @@ func TestP1Fonts(t *testing.T) {
 	if opts.NoSeac {
 		rec.Note("seac not generated (known finding)")
 	}
-	ev.SetupRapid(9000, 320000)
+	ev.SetupRapid(40000, 1000000)
 	rapid.Check(t, func(t *rapid.T) {
 		m, feat := t1gen.GenModel(t, opts)
 		l, lfeat := t1gen.GenLayout(t)
